@@ -240,6 +240,34 @@ func runC06(ch *Choices, cfg *RunCfg) (o *Outcome) {
 		}
 	}
 
+	// ---- an earlier stream: one run in five the writer's and the reader's instances have already carried
+	// another stream (pooled serializers are used for one connection after another); the stream under test
+	// then starts with WriteTo / ReadFrom / Reset on the used instances ----
+	var earlierVals []interface{}
+	var earlierBytes []byte
+	if ch.Intn(5, "earlier") == 1 {
+		g2 := NewGen(ch, CoreDomain())
+		for i, k := 0, ch.Range(1, 3, "earlier.n"); i < k; i++ {
+			earlierVals = append(earlierVals, g2.Value())
+		}
+		func() {
+			defer func() { recover() }()
+			var b bytes.Buffer
+			e := hessian.NewEncoder(&b, nmRun)
+			for _, v := range earlierVals {
+				if e.WriteObject(v) != nil {
+					return
+				}
+			}
+			earlierBytes = b.Bytes()
+		}()
+		if earlierBytes == nil {
+			earlierVals = nil
+		} else {
+			o.Probes["writer and reader instances had carried an earlier stream"]++
+		}
+	}
+
 	// ---- expected bytes and value boundaries: the same values through an identical encoder, alone ----
 	resetClock(0)
 	offsets := make([]int, n)
@@ -321,13 +349,36 @@ func runC06(ch *Choices, cfg *RunCfg) (o *Outcome) {
 		}()
 		var enc *hessian.Encoder
 		var ser hessian.Serializer
+		var scratch bytes.Buffer
 		switch entry {
 		case c06EncDec:
-			enc = hessian.NewEncoder(pipe, nmRun)
+			if earlierVals != nil {
+				enc = hessian.NewEncoder(&scratch, nmRun)
+				for _, v := range earlierVals {
+					enc.WriteObject(v)
+				}
+				enc.Reset(pipe)
+			} else {
+				enc = hessian.NewEncoder(pipe, nmRun)
+			}
 		case c06EncDecOneShotFirst:
 			enc = hessian.NewEncoder(nil, nmRun)
+			for i, v := range earlierVals {
+				if i == 0 {
+					enc.WriteTo(&scratch, v)
+				} else {
+					enc.WriteObject(v)
+				}
+			}
 		default:
 			ser = hessian.NewSerializer(tmRun, nmRun)
+			for i, v := range earlierVals {
+				if i == 0 {
+					ser.WriteTo(&scratch, v)
+				} else {
+					ser.Write(v)
+				}
+			}
 		}
 		for i, v := range vals {
 			if lockstep && i > 0 {
@@ -369,13 +420,36 @@ func runC06(ch *Choices, cfg *RunCfg) (o *Outcome) {
 		}
 		var dec *hessian.Decoder
 		var ser hessian.Serializer
+		earlierRd := bufio.NewReader(bytes.NewReader(earlierBytes))
 		switch entry {
 		case c06EncDec:
-			dec = hessian.NewDecoder(rd, tmRun)
+			if earlierVals != nil {
+				dec = hessian.NewDecoder(earlierRd, tmRun)
+				for range earlierVals {
+					dec.ReadObject()
+				}
+				dec.Reset(rd)
+			} else {
+				dec = hessian.NewDecoder(rd, tmRun)
+			}
 		case c06EncDecOneShotFirst:
 			dec = hessian.NewDecoder(nil, tmRun)
+			for i := range earlierVals {
+				if i == 0 {
+					dec.ReadFrom(earlierRd)
+				} else {
+					dec.ReadObject()
+				}
+			}
 		default:
 			ser = hessian.NewSerializer(tmRun, nmRun)
+			for i := range earlierVals {
+				if i == 0 {
+					ser.ReadFrom(earlierRd)
+				} else {
+					ser.Read()
+				}
+			}
 		}
 		for i := 0; i < n; i++ {
 			pipe.reading = true
